@@ -653,6 +653,38 @@ class IfaceExecutor(X.UnitsExecutor):
             return [(st, VInt(z3.Int(fresh_name("int_of_float"))))]
         return super().b_int(st, args, kwargs, node)
 
+    def e_Yield(self, n, st):
+        # Round 7: generators that yield images / tables (contract attribute `plain_yield`): the yielded values themselves are
+        # recorded (ctx.yielded); the C03 observation (unit number, text) only exists for units
+        if getattr(self.contract, "plain_yield", False) and n.value is not None:
+            out = []
+            chk = getattr(self.contract, "yield_check", None)
+            for (s, v) in self.ev(n.value, st):
+                s.yielded = s.yielded + [v]
+                if chk is not None and self.inline_depth == 0:
+                    goal, note = chk(self, s, v)
+                    self.add_vc("yields", getattr(self.contract, "yield_label", "element-kind"), s.pc, goal, note=note, loc=self.loc(n))
+                out.append((s, NONE))
+            return out
+        return super().e_Yield(n, st)
+
+    def e_YieldFrom(self, n, st):
+        if getattr(self.contract, "plain_yield", False):
+            out = []
+            for (s, v) in self.ev(n.value, st):
+                items = self.concrete_items(s, v)
+                if items is None:
+                    raise Unsupported(f"{self.loc(n)} yield from a symbolic iterable")
+                s.yielded = s.yielded + list(items)
+                chk = getattr(self.contract, "yield_check", None)
+                for v in items:
+                    if chk is not None and self.inline_depth == 0:
+                        goal, note = chk(self, s, v)
+                        self.add_vc("yields", getattr(self.contract, "yield_label", "element-kind"), s.pc, goal, note=note, loc=self.loc(n))
+                out.append((s, NONE))
+            return out
+        return super().e_YieldFrom(n, st)
+
     def seq_view(self, st, it):
         # iterating a dict value of a well-typed field = iterating its keys (same model as PyDict.keys(), install_pydict)
         if isinstance(it, VExt) and it.sort == "PyDict":
